@@ -58,6 +58,8 @@ type TravStep struct {
 	Attr string `json:"attr,omitempty"`
 	Str  *string `json:"str,omitempty"`
 	Num  *int64  `json:"num,omitempty"`
+	Bool *bool   `json:"bool,omitempty"`
+	Null bool    `json:"null,omitempty"` // index key is the untyped null literal
 }
 
 // RawB is a recipe for raw expression tokens.
